@@ -9,7 +9,8 @@ From LV Require Import Cluster.Flat Cluster.FlatProofs Cluster.FlatLinkage Clust
   Cognates.EditDist Cognates.EditDistProofs Cognates.Turchin
   Cognates.LexCluster Cognates.LexIndexProofs Cognates.LexMatrixProofs Cognates.LexClusterProofs
   Cognates.LexTheorems Cognates.LexConsequences Cognates.LexClusterExec Cognates.LexClusterQ
-  Cognates.LexCheckers.
+  Cognates.LexCheckers Cognates.LexDeepen Cluster.FlatTextbook Cluster.FlatUnique Cognates.LexUnique
+  Cognates.LexUniqueExample.
 Import ListNotations.
 Local Open Scope nat_scope.
 
@@ -136,6 +137,112 @@ Theorem C06_checkers :
 Proof. exact (fun wl out => conj (totalb_spec wl out) (concept_disjointb_spec wl out)). Qed.
 Print Assumptions C06_checkers.
 
+
+(* ------------------------------------------------------------------ *)
+(* Deepening: the remaining C05 clauses, stated for the identifiers. *)
+
+(* Consequence 3 (complete linkage, any distance function / carrier with a
+   max-like linkage): any two words of one cognate set are within the threshold
+   of each other. *)
+Theorem C06_complete_linkage_diameter :
+  forall (V : Type) (leb : V -> V -> bool) (link : list V -> V) (zero err : V)
+         (dist : nat -> nat -> option V) (thr : V),
+    (forall l t, leb (link l) t = true -> forall s, In s l -> leb s t = true) ->
+    forall wl out, NoDup (map rid wl) -> lex_cluster V leb link zero err dist thr wl = Some out ->
+    forall c i j ci, In c (concepts wl) -> i < j -> j < length (indices wl c) ->
+      In (nth i (indices wl c) 0, ci) out -> In (nth j (indices wl c) 0, ci) out ->
+      leb (D V err dist (nth i (indices wl c) 0) (nth j (indices wl c) 0)) thr = true.
+Proof. exact complete_linkage_diameter. Qed.
+Print Assumptions C06_complete_linkage_diameter.
+
+(* ... for the normalised edit distance: Levenshtein distance (least edit-script
+   cost) / length of the longer word <= threshold for every pair of a set. *)
+Theorem C06_editdist_complete_diameter :
+  forall (w : words) (thr : Q) (wl : list row) (out : list (nat * nat)),
+    NoDup (map rid wl) -> lexq Complete thr (DEdit w) wl = Some out ->
+    forall c i j ci, In c (concepts wl) -> i < j -> j < length (indices wl c) ->
+      In (nth i (indices wl c) 0, ci) out -> In (nth j (indices wl c) 0, ci) out ->
+      exists d, is_lev nat Nat.eqb (word_of w (nth i (indices wl c) 0)) (word_of w (nth j (indices wl c) 0)) d /\
+                lev_within d (word_of w (nth i (indices wl c) 0)) (word_of w (nth j (indices wl c) 0)) thr.
+Proof. exact editdist_complete_diameter. Qed.
+Print Assumptions C06_editdist_complete_diameter.
+
+(* Consequence 4 (every linkage on a total preorder, so average linkage too):
+   nothing the chosen linkage would still merge is left apart - the words of a
+   concept carrying two different identifiers form two blocks (va = exactly the
+   positions with the first identifier, vb = exactly those with the second)
+   whose linkage exceeds the threshold. *)
+Theorem C06_sets_are_separated :
+  forall (V : Type) (leb : V -> V -> bool) (link : list V -> V) (zero err : V)
+         (dist : nat -> nat -> option V) (thr : V),
+    (forall a b, leb a b = true \/ leb b a = true) ->
+    (forall a b c, leb a b = true -> leb b c = true -> leb a c = true) ->
+    forall wl out, NoDup (map rid wl) -> lex_cluster V leb link zero err dist thr wl = Some out ->
+    forall c ci cj i j, In c (concepts wl) -> ci <> cj ->
+      carries out (indices wl c) ci i -> carries out (indices wl c) cj j ->
+      exists va vb,
+        (forall p, In p va <-> carries out (indices wl c) ci p) /\
+        (forall p, In p vb <-> carries out (indices wl c) cj p) /\
+        leb (link (cross (cmat V zero err dist (indices wl c)) va vb)) thr = false.
+Proof. exact sets_are_separated. Qed.
+Print Assumptions C06_sets_are_separated.
+
+(* What acceptance by the per-concept checker (bit 3 of the case code, run on the
+   implementation's id column) means: complete linkage - words sharing an
+   identifier are within the threshold in the model's matrix of the concept;
+   every linkage - the blocks of two different identifiers have linkage above
+   the threshold. *)
+Theorem C06_checker_per_concept :
+  forall thr s wl out,
+    (forall avg_ok, flat_validb avg_ok Complete thr s wl out = true ->
+       forall c i j, In c (concepts wl) -> i < length (indices wl c) -> j < length (indices wl c) -> i <> j ->
+         cog out (nth i (indices wl c) 0) = cog out (nth j (indices wl c) 0) ->
+         (dm (concept_matrix s (indices wl c)) i j <= thr)%Q) /\
+    (forall meth, flat_validb true meth thr s wl out = true ->
+       forall c i j, In c (concepts wl) -> i < length (indices wl c) -> j < length (indices wl c) ->
+         cog out (nth i (indices wl c) 0) <> cog out (nth j (indices wl c) 0) ->
+         exists va vb,
+           (forall q, In q va <-> q < length (indices wl c) /\
+                      cog out (nth q (indices wl c) 0) = cog out (nth i (indices wl c) 0)) /\
+           (forall q, In q vb <-> q < length (indices wl c) /\
+                      cog out (nth q (indices wl c) 0) = cog out (nth j (indices wl c) 0)) /\
+           ~ (linkf meth (cross (dm (concept_matrix s (indices wl c))) va vb) <= thr)%Q).
+Proof.
+  exact (fun thr s wl out => conj (fun a => flat_validb_complete_sound a thr s wl out)
+                                  (fun m => flat_validb_terminal_sound thr m s wl out)).
+Qed.
+Print Assumptions C06_checker_per_concept.
+
+
+(* Clause 3 at full strength for tie-free concepts: "PRECISELY the partition obtained
+   by threshold clustering".  [tb_run] (Cluster/FlatTextbook.v) is the relational
+   specification of threshold-bounded agglomerative clustering: merge SOME pair of
+   clusters of minimal linkage while that minimum is <= threshold.  If the matrix
+   of the concept has no ties among its own items ([no_ties_below]: in every
+   partition state over the positions 0..n-1 two different unordered pairs of
+   blocks never have equal linkage), every such run from the singletons - whatever
+   textbook implementation produced it - ends in the partition the identifiers
+   describe.  Hypothesis on the linkage: it does not depend on the order of the
+   cross distances (min, max, sum/len on carriers where equal values are
+   identical, e.g. floats or integers).  (With ties the outcome of the
+   specification is not unique; C06_ids_are_flat_partition then pins the
+   identifiers to the run with lingpy's first-minimum rule.) *)
+Theorem C06_ids_are_the_textbook_partition :
+  forall (V : Type) (leb : V -> V -> bool) (link : list V -> V) (zero err : V)
+         (dist : nat -> nat -> option V) (thr : V),
+    (forall a b, leb a b = true \/ leb b a = true) ->
+    (forall a b c, leb a b = true -> leb b c = true -> leb a c = true) ->
+    (forall l l', Permutation.Permutation l l' -> link l = link l') ->
+    forall wl out, NoDup (map rid wl) -> lex_cluster V leb link zero err dist thr wl = Some out ->
+    forall c, In c (concepts wl) ->
+      no_ties_below V leb link (cmat V zero err dist (indices wl c)) (length (indices wl c)) ->
+      forall r, tb_run V leb link (cmat V zero err dist (indices wl c)) thr (init (length (indices wl c))) r ->
+      forall i j ci cj, i < length (indices wl c) -> j < length (indices wl c) ->
+        In (nth i (indices wl c) 0, ci) out -> In (nth j (indices wl c) 0, cj) out ->
+        (ci = cj <-> together r i j).
+Proof. exact ids_are_the_textbook_partition. Qed.
+Print Assumptions C06_ids_are_the_textbook_partition.
+
 (* ------------------------------------------------------------------ *)
 (* Non-vacuity: a wordlist with two concepts, three languages, a synonym, a
    missing cell, a duplicate word and unordered, non-contiguous keys. *)
@@ -169,3 +276,34 @@ Proof. vm_compute. reflexivity. Qed.
 
 Example ex_lev : edit_dist nat Nat.eqb [1; 2; 3; 4] [2; 3; 5] = 2.
 Proof. vm_compute. reflexivity. Qed.
+
+(* complete linkage at 1/2 (ex_edit_complete): the set {9, 5, 4} = positions 0, 1, 4 of the concept
+   has diameter 1/3, and it is separated from the set {3, 1} = positions 2, 3: the largest cross
+   distance is 1 > 1/2 *)
+Example ex_complete_diameter :
+  map (fun p => dm (concept_matrix (DEdit ex_words) (indices ex_wl 0)) (fst p) (snd p)) [(0, 1); (0, 4); (1, 4)]
+  = [0 # 2; 1 # 3; 1 # 3]%Q.
+Proof. vm_compute. reflexivity. Qed.
+
+Example ex_separated :
+  qleb (linkf Complete (cross (dm (concept_matrix (DEdit ex_words) (indices ex_wl 0))) [0; 1; 4] [2; 3])) (1 # 2) = false.
+Proof. vm_compute. reflexivity. Qed.
+
+Example ex_checker_accepts :
+  flat_validb true Complete (1 # 2) (DEdit ex_words) ex_wl [(9, 1); (3, 3); (5, 1); (40, 4); (4, 1); (2, 4); (1, 3)] = true.
+Proof. vm_compute. reflexivity. Qed.
+
+(* all hypotheses of C06_ids_are_the_textbook_partition hold at once: integer
+   (unnormalised Levenshtein) distances 1, 3, 2 between three words of one concept,
+   single linkage as the minimum of naturals, threshold 1 *)
+Example ex_textbook_order : (forall a b, Nat.leb a b = true \/ Nat.leb b a = true) /\
+  (forall a b c, Nat.leb a b = true -> Nat.leb b c = true -> Nat.leb a c = true) /\
+  (forall l l', Permutation.Permutation l l' -> nmin l = nmin l').
+Proof. exact (conj nleb_total (conj nleb_trans nmin_perm)). Qed.
+
+Example ex_textbook_run : lex_cluster nat Nat.leb nmin 0 100 dist3 1 wl3 = Some [(7, 1); (2, 1); (5, 3)].
+Proof. exact ex3_run. Qed.
+
+Example ex_textbook_no_ties :
+  no_ties_below nat Nat.leb nmin (cmat nat 0 100 dist3 (indices wl3 0)) (length (indices wl3 0)).
+Proof. exact ex3_no_ties. Qed.
